@@ -14,18 +14,23 @@ pub enum Op {
     Inspect,
     Then,
     Or,
+    /// Option flavour only: `?>` Option::filter
+    Filter,
     /// wrappers: `op >>> inner <<<`
     WAndThen,
     WMap,
     WOrElse,
     WMapErr,
     WInspect,
+    WFilter,
     /// first action inside a wrapper (`->` on the closure argument)
     ThenV,
     ThenVV,
     ThenF,
     ThenFF,
     ThenR,
+    /// inside `?> >>>` (Option flavour): `&Val -> bool`
+    ThenB,
 }
 
 #[derive(Debug)]
@@ -80,6 +85,8 @@ pub struct Prog {
     pub branches: &'static [Branch],
     pub handler: Option<Hnd>,
     pub joiner: Joiner,
+    /// values are `Option<Val>` instead of `Result<Val, Fail>` (sync and thread kinds only)
+    pub opt: bool,
     pub max_id: u16,
     /// free-form feature tags set by the generator ("profile", "rand", "names", "wrap", ...)
     pub tags: &'static str,
